@@ -84,6 +84,7 @@ fn main() {
         "typegate" => mailbox::typegate(&args),
         "auth_fsm" => auth::fsm(&args),
         "auth_session" => auth::session(&args),
+        "remote_proxy" => auth::proxy(&args),
         "elect" => cluster::elect(&args),
         "elect_search" => cluster::elect_search(&args),
         "frame_len" => cluster::frame_len(&args),
